@@ -209,7 +209,15 @@ def evidence(mod, pid, ctx, mon, wall, verdict, nshards):
         "seed": ctx.seed,
         "level": mod.LEVEL,
         "coverage": cov,
-        "assumptions": list(getattr(mod, "ASSUMPTIONS", [])),
+        "assumptions": list(getattr(mod, "ASSUMPTIONS", [])) + [
+            "execution environment of every run: CPython 3.12 / Numba JIT-compiled kernels on Linux; the complete quick workload is also run "
+            "in a child under python -O and its observations are merged (coverage.python_O_shard_quick_workload); Numba's thread count "
+            "is moved between 1, 2, 3 and NUMBA_NUM_THREADS from case to case and every 7th monitored call "
+            "(events.numba_thread_count_changes); operations are issued in varying argument forms (positional / documented keywords, "
+            "list / tuple / generator / iterator / map / NumPy S8 array, dict / Counter / OrderedDict / defaultdict, re-entrant update); "
+            "NUMBA_DISABLE_JIT is not driven (the unchanged library does not run under it)",
+            "thorough tier: coverage.core_shard_quick_workload is the complete quick workload, never cut short by the time budget; the "
+            "other shards add depth as far as the budget goes"],
         "wall_s": round(wall, 2),
         "violations": len(mon.violations),
     }
